@@ -71,8 +71,8 @@ func watchdog(name string, oracle func(string, ...any), f func()) bool {
 	select {
 	case <-done:
 		return true
-	case <-time.After(2 * time.Second):
-		oracle("C12 %s did not return within 2s (Broker permanently locked)", name)
+	case <-time.After(8 * time.Second):
+		oracle("C12 %s did not return within 8s (Broker permanently locked)", name)
 		return false
 	}
 }
